@@ -716,6 +716,60 @@ def _f4(f):
     return f["suite"] == "fault" and is_wal and sym and is_put and same_key
 
 
+# ------------------------------------------------------------------------------- minimisation
+def _oracle_tags(suite, case, real_out):
+    """tags the suite's oracle raises for one case on one real output"""
+    if suite in ("seq", "sizes", "range"):
+        rl = run.by_case(real_out).get(case_name(case), [])
+        return {t for t, _ in oracle.seq_oracle(case, rl) + seq_extra_oracle(case, rl)} | ({"range_slice"} if suite == "range" and oracle.seq_oracle(case, rl) else set())
+    if suite == "settings":
+        rl = run.by_case(real_out).get(case_name(case), [])
+        return {t for t, _ in oracle.settings_oracle(case, rl)}
+    if suite == "orphans":
+        rl = run.by_case(real_out).get(case_name(case), [])
+        return {t for t, _ in oracle.orphan_oracle(case, rl)}
+    if suite in ("crash", "powerloss"):
+        H = headers_split(real_out)
+        rl = next((v for h, v in H.items() if h.split()[1] == case_name(case)), [])
+        return {t for t, _, _ in oracle.crash_oracle(case, rl)}
+    if suite == "fault":
+        tags = set()
+        for h, rl in headers_split(real_out).items():
+            tags |= {t for t, _ in oracle.fault_oracle(case, rl, h)}
+        return tags
+    return None
+
+
+def minimise(f, budget=30):
+    """drop operations from the failing case while the same oracle tag still fires on the real library"""
+    suite, mode, case, tag = f["suite"], f.get("mode", "plain"), f.get("case"), f["tag"]
+    if not case or mode not in ("plain", "crash-all", "fault-all", "powerloss-all") and not mode.startswith("fault:"):
+        return None
+    if mode.startswith("fault:"):
+        mode = "fault-all"
+    env = {"HX_SHIM_DATA": "1"} if suite == "powerloss" else None
+    lines = case.rstrip("\n").split("\n")
+    keep = lambda l: l.split()[0] in ("case", "cfg", "end", "fault", "open", "close", "conc", "race") if l.split() else True
+    tries = 0
+    i = len(lines) - 1
+    changed = False
+    while i >= 0 and tries < budget:
+        if keep(lines[i]):
+            i -= 1; continue
+        cand = lines[:i] + lines[i + 1:]
+        text = "\n".join(cand) + "\n"
+        tries += 1
+        try:
+            out = run.run_sharded([text], mode, "real", nshards=1, timeout=300, extra_env=env)
+            tags = _oracle_tags(suite, text, out)
+        except Exception:
+            tags = None
+        if tags is not None and tag in tags:
+            lines = cand; changed = True
+        i -= 1
+    return "\n".join(lines) + "\n" if changed else None
+
+
 # ------------------------------------------------------------------------------- replay
 def replay(pid, path):
     """re-executes one replay file on the current tree, model and implementation side by side"""
